@@ -368,6 +368,7 @@ func (s *Smt) strDistinct() string {
 
 // typeTag gives a stable nonzero integer tag for a concrete dynamic type.
 func (s *Smt) typeTag(t types.Type) int {
+	t = types.Unalias(t)
 	key := types.TypeString(t, nil)
 	if id, ok := s.tags[key]; ok {
 		return id
